@@ -381,7 +381,7 @@ package jd
 //@ contract readDiff
 //@   ensures ret1 == nil ==> validDiff(ret0)
 //@   loop "range diffLines" invariant validDiff(diff) && validHunk(de)
-//@   loop "range s" invariant true
+//@   loop "range s" invariant transitionErr == nil && forallInt(0, idx, func(i int) bool { return s[i] != header })
 //@   carries C13 C02
 
 //@ contract ReadDiffString
